@@ -603,6 +603,16 @@ func (a *Analysis) HandlerCheck() (out []Finding, checked int, conns map[int]boo
 			}
 		}
 	}
+	// Handle is not a blocking call: in a run certified stuck, a Handle call that never returned has taken the
+	// handler (and whatever goroutine called it) out of service for good
+	if a.R.Stuck {
+		for _, sp := range spans {
+			if sp.ret == 1<<30 {
+				out = append(out, Finding{"handle-call-never-returns", fmt.Sprintf("Handle(h%d) called at #%d never returned and the run is certified stuck: the handler cannot receive anything any more", sp.h, sp.call)})
+				break
+			}
+		}
+	}
 	// serve looks the handler up some time after the last byte was consumed and before it comes
 	// back to read: the handler must be stable over that whole interval, i.e. from the consumed
 	// event to the next thing the reader goroutine does on that connection.
